@@ -9,7 +9,7 @@
    current source and the [valid_child] table read from the _validate_child methods). *)
 From Coq Require Import List ZArith Bool Lia Arith.
 Import ListNotations.
-Open Scope Z_scope.
+Local Open Scope Z_scope.
 
 (* ------------------------------------------------------------------ kinds *)
 Inductive kind :=
@@ -43,19 +43,22 @@ Definition is_datanode (k : kind) : bool :=
 Definition is_reference (k : kind) : bool := kind_in k [KArrayReference; KReference].
 
 (* The frozen reference ("documented format") validity table: the specification of "a kind valid
-   at its position" used by the direct evaluation of the invariant on the real tree, and the
-   table the generated [valid_child] must refine (Properties: C14_valid_child_refines_reference).*)
+   at its position" (positions are >= 0 there) used by the direct evaluation of the invariant on
+   the real tree, and the table the generated [valid_child] must refine (Properties:
+   C14_valid_child_refines_reference).  On negative positions (which only the defective index
+   arithmetic ever passes in) it answers as the _validate_child methods did when it was frozen,
+   so that it also serves as the validity function of the as-found witnesses. *)
 Definition valid_ref (ck : kind) (pos : Z) (xk : kind) : bool :=
   match ck with
   | KSchedule => is_statement xk
-  | KLoop => ((0 <=? pos) && (pos <=? 2) && is_datanode xk) || ((pos =? 3) && kind_eqb xk KSchedule)
+  | KLoop => (((pos =? 0) || (pos =? 1) || (pos =? 2)) && is_datanode xk) || ((pos =? 3) && kind_eqb xk KSchedule)
   | KIfBlock => ((pos =? 0) && is_datanode xk) || (((pos =? 1) || (pos =? 2)) && kind_eqb xk KSchedule)
   | KWhileLoop => ((pos =? 0) && is_datanode xk) || ((pos =? 1) && kind_eqb xk KSchedule)
-  | KAssignment => (0 <=? pos) && (pos <? 2) && is_datanode xk
-  | KCall => if pos =? 0 then is_reference xk else (0 <? pos) && is_datanode xk
+  | KAssignment => (pos <? 2) && is_datanode xk
+  | KCall => if pos =? 0 then is_reference xk else is_datanode xk
   | KBinaryOperation => ((pos =? 0) || (pos =? 1)) && is_datanode xk
   | KUnaryOperation => (pos =? 0) && is_datanode xk
-  | KRange => (0 <=? pos) && (pos <? 3) && is_datanode xk
+  | KRange => (pos <? 3) && is_datanode xk
   | KArrayReference => is_datanode xk || kind_eqb xk KRange
   | KOMPParallelDirective =>
       ((pos =? 0) && kind_eqb xk KSchedule) || ((pos =? 1) && kind_eqb xk KOMPDefaultClause) ||
@@ -498,6 +501,10 @@ Fixpoint first_reason (l : list nat) : nat :=
 Fixpoint has_dup (l : list nat) : bool :=
   match l with [] => false | x :: r => memb x r || has_dup r end.
 
+(* pop() / pop(-1) never enters the sibling-validation loop *)
+Definition pop_last_ok (ie : iexpr) (len : Z) : bool := len <=? ieval ie len (-1) + 1.
+Definition pop_all_reason (P : params) (n : nat) : nat :=
+  if forallb (fun l => pop_last_ok (ie_pop P) (Z.of_nat l)) (seq 1 n) then R_SAFE else R_POP_IDX.
 Definition pop_reason (P : params) (fuel : nat) (s : state) (c : nat) (i : Z) : nat :=
   first_reason [if unlink_idx_ok (ie_pop P) (zlen (kids s c)) i then R_SAFE else R_POP_IDX;
                 depth_reason fuel s c].
@@ -521,7 +528,8 @@ Definition reason (P : params) (E : env) (fuel : nat) (s : state) (o : op) : nat
       first_reason [if unlink_idx_ok (ie_del P) (zlen (kids s c)) i then R_SAFE else R_DEL_IDX;
                     depth_reason fuel s c]
   | OPop c i => pop_reason P fuel s c i
-  | OPopLast c | OPopAll c => depth_reason fuel s c
+  | OPopLast c => depth_reason fuel s c
+  | OPopAll c => first_reason [pop_all_reason P (length (kids s c)); depth_reason fuel s c]
   | ORemove c x =>
       first_reason [match find_eq fuel E s (kids s c) x O with
                     | FAt j => if f_remove_unlink P then R_SAFE
@@ -534,15 +542,25 @@ Definition reason (P : params) (E : env) (fuel : nat) (s : state) (o : op) : nat
   | OExtend c xs => extend_reason P fuel s c xs
   | OClear c | OReverse c => depth_reason fuel s c
   | OSort c => R_SAFE
-  | ODetach x => match par s x with None => R_SAFE | Some p => depth_reason fuel s p end
+  | ODetach x =>
+      match par s x with
+      | None => R_SAFE
+      | Some p => match index_of x (kids s p) O with
+                  | None => R_SAFE
+                  | Some j => pop_reason P fuel s p (Z.of_nat j)
+                  end
+      end
   | OReplaceWith x y =>
       match par s x with
       | None => R_SAFE
-      | Some p => first_reason [link_reason P fuel s p y; depth_reason fuel s p]
+      | Some p => match index_of x (kids s p) O with
+                  | None => R_SAFE
+                  | Some j => setitem_reason P fuel s p (Z.of_nat j) y
+                  end
       end
   | OSetChildren c xs =>
       let s1 := fst (nd_pop_all P E fuel s c) in
-      first_reason [depth_reason fuel s c;
+      first_reason [pop_all_reason P (length (kids s c)); depth_reason fuel s c;
                     if f_setter_atomic P then R_SAFE
                     else match snd (nd_set_children P E fuel s c xs) with
                          | None => R_SAFE | Some _ => R_SETTER end;
@@ -572,15 +590,22 @@ Fixpoint hist_depth_ok (P : params) (E : env) (fuel : nat) (s : state) (ops : li
   | o :: r => depth_ok fuel s o && hist_depth_ok P E fuel (fst (step P E fuel s o)) r
   end.
 
+(* "an operation that raises an error leaves the tree exactly as it was", along a history *)
+Definition state_eq (s s' : state) : Prop :=
+  (forall c, kids s c = kids s' c) /\ (forall x, par s x = par s' x).
+Fixpoint failed_unchanged (P : params) (E : env) (fuel : nat) (s : state) (ops : list op) : Prop :=
+  match ops with
+  | [] => True
+  | o :: r => (snd (step P E fuel s o) <> None -> state_eq (fst (step P E fuel s o)) s) /\
+              failed_unchanged P E fuel (fst (step P E fuel s o)) r
+  end.
+
 (* ------------------------------------------------ the invariant, decidably *)
 Definition Inv (E : env) (s : state) : Prop :=
   (forall c x, In x (kids s c) -> par s x = Some c) /\
   (forall c, NoDup (kids s c)) /\
   (forall x c, par s x = Some c -> In x (kids s c)) /\
   (forall c i x, nth_error (kids s c) i = Some x -> V E (K E c) (Z.of_nat i) (K E x) = true).
-
-Definition state_eq (s s' : state) : Prop :=
-  (forall c, kids s c = kids s' c) /\ (forall x, par s x = par s' x).
 
 (* boolean invariant over the nodes 0..n-1 (all the nodes of a correspondence case) *)
 Fixpoint valid_from (E : env) (c : nat) (i : Z) (l : list nat) : bool :=
